@@ -156,6 +156,14 @@ func (st *State) assume(t *Term) {
 
 // knows reports whether t is literally part of the path condition.
 func (st *State) knows(t *Term) bool {
+	if t.Op == OAnd {
+		for _, a := range t.Args {
+			if !st.knows(a) {
+				return false
+			}
+		}
+		return true
+	}
 	if st.pcSet == nil {
 		st.pcSet = make(map[int]bool, len(st.pc)+8)
 		for _, p := range st.pc {
@@ -322,8 +330,9 @@ func (st *State) cellsOf(pi *PtrInfo, T types.Type) []string {
 
 // havocAt replaces the value at pi with a fresh one and returns it.
 func (st *State) havocAt(pi *PtrInfo, T types.Type, prefix string) Val {
-	v := freshVal(T, prefix)
-	st.assumeRefsOld(v)
+	v := freshValAny(T, prefix)
+	st.assumeSliceWF(v)
+	st.assumeRefsExist(v)
 	st.storeAt(pi, v)
 	return v
 }
@@ -421,4 +430,15 @@ func posString(fset *token.FileSet, p token.Pos) string {
 		f = f[i+1:]
 	}
 	return fmt.Sprintf("%s:%d", f, ps.Line)
+}
+
+// assumeRefsExist: every reference held by a value denotes an object that exists now (an object that predates the
+// function, or one allocated so far on this path); objects allocated by callees outside reach are modelled as
+// predating ones.
+func (st *State) assumeRefsExist(v Val) {
+	for i, k := range leafKinds(v.T) {
+		if k == lkRef || k == lkPl {
+			st.assume(Ule(v.L[i], BVConst(st.nextRef, 64)))
+		}
+	}
 }
